@@ -103,6 +103,13 @@ func runAPCase(t *testing.T, m *Model, rng *RNG, c apCase, replay bool) (goRes s
 		}
 		goRes = verify()
 		if replay {
+			if c.replayAs != nil {
+				// the same ticket and authenticator under another service name in the clear part of the ticket
+				ap.Ticket.SName.NameString = c.replayAs
+				if b2, e := ap.Marshal(); e == nil {
+					b = b2
+				}
+			}
 			goRes = verify() // the same request presented again
 		}
 		op = fmt.Sprintf("ap.verify %d %s %s %s - %s", now.UnixNano()/1000, stoks, B(replay), X(b), ktToks)
@@ -205,10 +212,20 @@ func c01Defects() []defect {
 		{"acname-extra-component", func(c *apCase, r *RNG) { c.aCname = []string{"=", "admin"} }},
 		{"acnametype", func(c *apCase, r *RNG) { c.aCnt = 10 }},
 		{"acrealm", func(c *apCase, r *RNG) { c.aCrealm = "EVIL.REALM" }},
+		// the client realm is compared octet by octet: a case variant is another realm
+		{"acrealm-case", func(c *apCase, r *RNG) { c.aCrealm = strings.ToLower(c.crealm) }},
+		{"acrealm-case-mixed", func(c *apCase, r *RNG) { c.aCrealm = "Test.GoKrb5" }},
+		{"acrealm-kelvin", func(c *apCase, r *RNG) { c.aCrealm = strings.Replace(c.crealm, "K", "\u212a", 1) }},
+		{"crealm-lower-acrealm-upper", func(c *apCase, r *RNG) { c.crealm = "test.gokrb5"; c.aCrealm = "TEST.GOKRB5" }},
 		{"authusage", func(c *apCase, r *RNG) { c.authUsage = []uint32{7, 11, 2, 12}[r.Intn(4)] }},
 		{"authkey", func(c *apCase, r *RNG) { c.authKey = randKey(r, c.et) }},
 		{"caddr-v4", func(c *apCase, r *RNG) { c.caddr = []types.HostAddress{v4} }},
 		{"caddr-v4v6", func(c *apCase, r *RNG) { c.caddr = []types.HostAddress{v4b, v6} }},
+		// the client's address anywhere in a list that mixes address families
+		{"caddr-v6v4+clientaddr-v4", func(c *apCase, r *RNG) { c.caddr = []types.HostAddress{v6, v4}; c.clientAddr = &v4 }},
+		{"caddr-v6v6v4+clientaddr-v4", func(c *apCase, r *RNG) { c.caddr = []types.HostAddress{v6, v6, v4}; c.clientAddr = &v4 }},
+		{"caddr-v4v6+clientaddr-v6", func(c *apCase, r *RNG) { c.caddr = []types.HostAddress{v4, v6}; c.clientAddr = &v6 }},
+		{"caddr-v4bv6+clientaddr-v4", func(c *apCase, r *RNG) { c.caddr = []types.HostAddress{v4b, v6}; c.clientAddr = &v4 }},
 		{"cname-empty", func(c *apCase, r *RNG) { c.cname = []string{}; c.aCname = nil }},
 		{"pac-valid", func(c *apCase, r *RNG) { c.pac = "valid" }},
 		{"pac-badsig", func(c *apCase, r *RNG) { c.pac = "badsig" }},
@@ -250,6 +267,16 @@ func TestC01(t *testing.T) {
 		c := baseCase(et)
 		c01Compare(t, m, v, rng, c, false)
 		c01Compare(t, m, v, rng, c, true)
+		// replays that differ in the unprotected service name of the ticket, with and without a keytab principal
+		// override (with it, the name in the ticket plays no part in finding the key)
+		for _, ovr := range []string{"", "HTTP/host.test.gokrb5"} {
+			for _, as := range [][]string{{"HTTP", "other.test.gokrb5"}, {"host", "host.test.gokrb5"}, {"HTTP"}, {"HTTP/host.test.gokrb5"}, {}} {
+				c := baseCase(et)
+				c.override = ovr
+				c.replayAs = as
+				c01Compare(t, m, v, rng, c, true)
+			}
+		}
 		for _, d := range defs {
 			c := baseCase(et)
 			apply(&c, d)
